@@ -114,6 +114,11 @@ Lemma tab_CustomDist k f :
     (fun h => match h with HAttr "dist" => Some (KFun f) | _ => None end) hf_CustomDist
   = w_key v (WDist k f).
 Proof. reflexivity. Qed.
+Lemma tab_MatrixWeighting i e :
+  interp KNone KNone (weighting_tab_key (WMatrix i e))
+    (fun h => match h with HBytes "matrix" => Some (KBytes i) | _ => None end) hf_MatrixWeighting
+  = w_key v (WMatrix i e).
+Proof. reflexivity. Qed.
 (* ProductSpaceArrayWeighting inherits ArrayWeighting.__hash__ *)
 Lemma tab_ArrayWeighting_Ps i e :
   interp KNone KNone (weighting_tab_key (WArray KPs i e))
